@@ -13,7 +13,9 @@ CHECKS = {
           "over compression levels x container sizes 1 B..4 MiB x restore points; TLC validates FileRoundTrip (all "
           "delivered, in order, equal, then null/eof/!good). Pipeline level: ReadSession/WriteSession show for every "
           "interleaving of small configurations that bytes and object order pass through unchanged, edge-replayed on "
-          "the real File."),
+          "the real File. Only the length fields frozen in Registry.tla (EncoderOwned) may be overwritten by an "
+          "encoder. Beyond the bounds: three sessions at the same time in one process must write/read what they do "
+          "alone, and a session of more than 4 GiB (positions beyond 2^32) must return every object."),
     design_ref="DESIGN.md §6 C01",
     note=("Field values are seeded samples; classes, shapes, selector ranges and configuration classes are enumerated. "
           "Classes with a listed object-level finding are left out of the file-level sequences."),
@@ -26,7 +28,10 @@ CHECKS = {
           "groups) are judged when still decoded completely: values must come back, recomputed members are compared "
           "against the recomputed value, bytes no member depends on are zero by design, and a completely decoded image "
           "must re-encode to the same size. TLC validates the per-image records against Framing.tla (ImageOK) with the "
-          "frozen registry and padding set."),
+          "frozen registry and padding set, the frozen list of encoder-derived length fields (EncoderOwned: anything "
+          "else the encoder overwrites is a decoded value not carried over) and the frozen in-scope profile of the "
+          "derived images (ImageScope: fewer images decoded completely with the same shape means a field value has "
+          "started to act as a selector)."),
     design_ref="DESIGN.md §6 C02",
     note=("There is no per-field layout table in TLA+ (DESIGN §8): the Vector images are the format oracle. 'Same shape' "
           "uses the decoded object's containers plus the size-preservation rule; each member a substitution changed is "
@@ -56,7 +61,7 @@ CHECKS = {
           "(incl. incompressible payloads) are projected by an independent decoder (struct + zlib only) to records and "
           "TLC validates every record against the spec (trace validation, rejected records are named)."),
     design_ref="DESIGN.md §6 C04",
-    note=("Compression is uninterpreted (inflate must give the declared size). Trusted: python zlib/hashlib, the "
+    note=("Written-file cases include sessions configured only after open() (level, restore points) and three sessions at the same time (bytes equal to the sessions alone). Compression is uninterpreted (inflate must give the declared size). Trusted: python zlib/hashlib, the "
           "decoder tools/blfparse.py. Schedule independence of the container sequence is checked by C07."),
     technique="TLA+ format spec + TLC trace validation of independently decoded files"),
  "C05": dict(
@@ -67,7 +72,7 @@ CHECKS = {
           "Vector-produced reference logs are validated with RefOK (reader counters = their own header). StatsExact is "
           "an invariant of both session specs for all interleavings, edge-replayed on the real File."),
     design_ref="DESIGN.md §6 C05",
-    note="32-bit caller fields are compared modulo 2^31 (TLC integers). The decoder is trusted for the header layout.",
+    note="Written-file cases include sessions configured only after open() and concurrent sessions. 32-bit caller fields are compared modulo 2^31 (TLC integers). The decoder is trusted for the header layout.",
     technique="TLA+ format spec + TLC trace validation + session invariants with M1 edge replay"),
  "C06": dict(
     category="model_checking",
@@ -145,7 +150,7 @@ CHECKS = {
           "returns, so a stale access is a deterministic use-after-free; anti-vacuity probe (the defective order "
           "violates NoStaleAccess); ThreadSanitizer sensor on native sessions with seeded pacing."),
     design_ref="DESIGN.md §6 C11, §8",
-    note=("Memory-level races outside the modelled hand-over are only observed by TSan on sampled native schedules; "
+    note=("The TSan sensor also runs three sessions at the same time (state shared between File objects). Memory-level races outside the modelled hand-over are only observed by TSan on sampled native schedules; "
           "the spec contributes the schedule enumeration and the ownership argument."),
     technique="TLA+ ownership invariants + TLC + ASan edge replay with post-hand-over scheduling points + TSan sensor"),
  "C12": dict(
@@ -167,7 +172,7 @@ CHECKS = {
           "after destruction. Abandoned/early-closed sessions: Accounted/AllDeleted on the session specs for all "
           "interleavings, edge-replayed under ASan."),
     design_ref="DESIGN.md §6 C13",
-    note="good()/eof() compared only while a read session is open; leaks by LeakSanitizer reachability.",
+    note="The write grid includes a session that writes a restore-point container (LSan). good()/eof() compared only while a read session is open; leaks by LeakSanitizer reachability.",
     technique="TLA+ lifecycle spec + TLC + history replay (M3) under ASan/LSan + session ownership invariants"),
  "C14": dict(
     category="model_checking",
@@ -179,7 +184,7 @@ CHECKS = {
           "whose heap is pre-filled with different patterns, and whole files are written in fresh processes with "
           "different patterns and twice with the same - all hashes must agree."),
     design_ref="DESIGN.md §6 C14",
-    note="Stack memory is not poisoned; zlib assumed deterministic.",
+    note="Also: three sessions at the same time must write what they write alone; W_late (level/restore points set after open, directed and seeded schedules) must give one output. Stack memory is not poisoned; zlib assumed deterministic.",
     technique="TLA+ session/container specs + TLC + poisoned-heap differential runs"),
  "C15": dict(
     category="model_checking",
